@@ -87,13 +87,17 @@ def _atpn_ens(S, a, r):
 def _atpn_gen(rng, tier):
     small_t = list(all_sorted_intervals(3, 6, min_len=1, disjoint=True))
     small_i = list(all_sorted_intervals(3, 6, min_len=1, disjoint=True))
+    # ends encoded as time + length * dt (no endtime field), for things, for intervals and for both
+    for t, c in (([(0, 2), (5, 6)], [(3, 4)]), ([(1, 2)], [(0, 1), (4, 6)]), ([(0, 1), (2, 3), (6, 7)], [(1, 2), (4, 5)])):
+        for enc_t, enc_c in (("dt", "endtime"), ("endtime", "dt"), ("dt", "dt")):
+            yield dict(things=intervals(t, enc_t), intervals=intervals(c, enc_c))
     for t in small_t:
         for c in small_i:
             yield dict(things=intervals(t), intervals=intervals(c))
     for _ in range(500 if tier == "quick" else 20000):
         t = random_sorted_intervals(rng, rng.randint(0, 6), 40, 6, min_len=1, disjoint=True)
         c = random_sorted_intervals(rng, rng.randint(0, 6), 40, 6, min_len=1, disjoint=True)
-        yield dict(things=intervals(t, rng.choice(("endtime", "dt"))), intervals=intervals(c))
+        yield dict(things=intervals(t, rng.choice(("endtime", "dt"))), intervals=intervals(c, rng.choice(("endtime", "dt"))))
 
 
 abs_time_to_prev_next = Contract(
